@@ -120,6 +120,8 @@ func vkUniverse() []vkEntry {
 		vkV6("::/1", [8]uint16{}, 1),
 		vkV6("8000::/1", [8]uint16{0x8000}, 1),
 		vkV6("::/0", [8]uint16{}, 0),
+		// an IPv6 host entry at the very bottom of the space (::/96, where IPv4 numbers live when read as 128-bit values)
+		vkV6("::1/128", [8]uint16{0, 0, 0, 0, 0, 0, 0, 1}, 128),
 		// malformed — unparsable under any CIDR grammar
 		vkBad(""),
 		vkBad("10.0.0.16"),
@@ -190,6 +192,7 @@ func vkProbes() []vkProbe {
 		{0x2001, 0xdb8, 0, 3, 0, 0, 0, 0}, {0x2001, 0xdb8, 0, 3, f, f, f, f}, {0x2001, 0xdb8, 0, 4, 0, 0, 0, 0},
 		// looks like an IPv4 number in the low word but is NOT v4-mapped
 		{0, 0, 0, 0, 0, 0, 0x0a00, 0x0011},
+		{0, 0, 0, 0, 0, 0, 0, 2}, {0, 0, 0, 0, 0, 0, 0x0a00, 0x001f}, {0, 0, 0, 0, 0, 0, 0x0808, 0x0808},
 	} {
 		add6(w)
 	}
